@@ -24,9 +24,14 @@ REVERSE = {   # name: fix commit subject prefix
     'C16-gemm-stride': "fix: base.gemm(A, B, C) with dense A, transA='T'",
     'C15-sparse-rhs-imag': 'fix: assigning a real sparse matrix to entries of a complex dense matrix',
     'C15-slice-1x1': 'fix: A[slice, slice] = 1x1 matrix of the same type is refused',
+    'C15-irem-zero-frees-buffer': 'fix: A %= 0 frees the buffer of A',
 }
 
 CUSTOM = {
+    # C15: integer remainder with C semantics (the defect as found; the fix was followed by another on the same line)
+    'C15-int-remainder-truncates': [('src/C/base.c',
+        "    ((int_t *)dest)[i] = (r != 0 && ((r < 0) != (a.i < 0))) ? r + a.i : r;\n",
+        "    ((int_t *)dest)[i] = r;\n")],
     # C09: per-call work arrays hoisted into a module-level cache ("avoid re-allocating in every call")
     'C09-shared-work-arrays': [('src/python/coneprog.py',
         "    ws3, wz3 = matrix(0.0, (cdim,1)), matrix(0.0, (cdim,1))\n    def res(ux, uy, uz, utau, us, ukappa, vx, vy, vz, vtau, vs, vkappa, W,",
